@@ -83,9 +83,10 @@ end Counter
 
 end Hist
 
-/-- **every reachable state satisfies the bookkeeping invariants**: after any history of fill / + / += / * / zero() /
-copy() over a pool derived from one empty live tree, in which every fill is an admissible step that lands in a
-well-formed state, every aggregator of the pool satisfies `inv` (and is a well-formed state of the same tree).
+/-- **every reachable state satisfies the bookkeeping invariants**: after any history of fill / fill.numpy / + / += /
+* / zero() / copy() over a pool derived from one empty live tree, in which every fill is an admissible step that lands
+in a well-formed state and every vectorised fill satisfies the executable hypotheses of C03 on the state it is applied
+to, every aggregator of the pool satisfies `inv` (and is a well-formed state of the same tree).
 `hgf` is necessary (`Hist.Counter`); `hn` is not used. -/
 theorem inv_history (z : Agg) (ops : List HOp)
     (hz : isZeroTree z = true) (hg : good z = true) (ht : hasTmpl z = true) (_hn : noBins z = true)
@@ -99,13 +100,34 @@ theorem inv_history (z : Agg) (ops : List HOp)
   have := Hist.ok_run hg ops [z] hp hok hgf a ha
   exact ⟨this.inv, this.good, this.base⟩
 
+/-- the same, with live templates in the conclusion (what the next operation of a history needs) -/
+theorem inv_history_tmpl (z : Agg) (ops : List HOp)
+    (hz : isZeroTree z = true) (hg : good z = true) (ht : hasTmpl z = true)
+    (hok : okRun [z] ops = true) (hgf : goodFills [z] ops = true) :
+    ∀ a ∈ runH z ops, inv a = true ∧ good a = true ∧ sameBase z a = true ∧ hasTmpl a = true := by
+  intro a ha
+  have hp : ∀ a ∈ [z], Hist.Ok z a := by
+    intro a ha
+    rw [List.mem_singleton.1 ha]
+    exact Hist.ok_start z hz hg ht
+  have := Hist.ok_run hg ops [z] hp hok hgf a ha
+  exact ⟨this.inv, this.good, this.base, this.tmpl⟩
+
 /-- non-vacuity: a history using every operation that satisfies both hypotheses -/
 def Hist.exOps : List HOp :=
   [.fill 0 [.num (.fin (1/2)), .num (.fin 3)] 1, .copy 0, .fill 1 [.num .nan, .num (.fin 1)] 2, .add 0 1,
    .mul 2 (.fin (1/2)), .mul 2 .nan, .iadd 0 3, .zero 0, .fill 5 [.num (.fin 5), .num .pinf] (.fin (1/2)), .iadd 5 0,
-   .fill 0 [.num (.fin 1), .num (.fin 1)] (.fin (-1))]
+   .fill 0 [.num (.fin 1), .num (.fin 1)] (.fin (-1)),
+   .fillnp 0 (Ex.s2.map (·.1)) (Ex.s2.map (·.2)), .fillnp 4 (Ex.s1.map (·.1)) [0, 3], .iadd 4 0,
+   .fillnp 4 ((Ex.s1 ++ Ex.s2).map (·.1)) ((Ex.s1 ++ Ex.s2).map (·.2)), .fillnp 9 [] [], .fillnp 1 [] []]
 
 #guard okRun [Ex.z] Hist.exOps && goodFills [Ex.z] Hist.exOps && (runH Ex.z Hist.exOps).length == 6 &&
-  (runH Ex.z Hist.exOps).all (fun a => inv a && good a && sameBase Ex.z a)
+  (runH Ex.z Hist.exOps).all (fun a => inv a && good a && sameBase Ex.z a && hasTmpl a)
+
+/- the vectorised fills of `exOps` do change the pool (they are not no-ops), and a vectorised fill that raises is not
+an admissible step -/
+#guard runH Ex.z Hist.exOps != runH Ex.z (Hist.exOps.filter (fun op => match op with | .fillnp .. => false | _ => true))
+#guard !okRun [Ex.z] [.fillnp 0 [[.raises, .raises]] [1]] && !okRun [Ex.z] [.fillnp 0 (Ex.s1.map (·.1)) [1]] &&
+  !okRun [Ex.z] [.fillnp 0 (Ex.s1.map (·.1)) [1, .fin (-1)]]
 
 end Hg
